@@ -125,8 +125,11 @@ def no_undescribed_access(ctx):
                           'a request handler indexes secnode.modules with a request-derived name without an export test: '
                           'an unexported module becomes reachable', fi)
             # accessible lookups
-            if isinstance(n, ast.Call) and call_attr(n) == 'get' and isinstance(n.func, ast.Attribute) and \
-                    src(n.func.value).rpartition('.')[2] in ('parameters', 'commands', 'accessibles') and n.args:
+            recv = []
+            if isinstance(n, ast.Call) and call_attr(n) == 'get' and isinstance(n.func, ast.Attribute):
+                # the table may be picked into a local first (`candidates = moduleobj.commands`)
+                recv = [src(o) for o in origins(n.func.value, fi.node)] if isinstance(n.func.value, ast.Name) else [src(n.func.value)]
+            if recv and all(r.rpartition('.')[2] in ('parameters', 'commands', 'accessibles') for r in recv) and n.args:
                 n_obl += 1
                 ctx.analysed(fi)
                 if cfg is None:
@@ -444,6 +447,33 @@ def described_flags_are_the_declared_ones(ctx):
     the class declares - and a struct parameter described as writable has no write method"""
     from sa.rules import c09
     c09.copy_keeps_every_declared_property(ctx)
+
+
+@rule('C06.R10', min_instances=1)
+def described_struct_has_the_node_s_optional_members(ctx):
+    """shared with C03.R1d: a described struct accepts and rejects the payloads the node does - an empty list of optional
+    members is stated in the datainfo (an omitted key means 'all optional')"""
+    from sa.rules import c03
+    c03.struct_states_an_empty_optional_list(ctx)
+
+
+@rule('C06.R2c', min_instances=2)
+def names_that_are_not_exported_have_no_translation(ctx):
+    """shared with C04.R1: the dispatcher translates a wire name through accessiblename2attr WITHOUT a fall-back - a default
+    (`.get(name, name)`) makes every attribute name an accepted wire name, described or not"""
+    from sa.rules import c04
+    m = ctx.m
+    n = 0
+    for name, fi in sorted(m.cls(D).methods.items()):
+        if m.is_inlined(fi):
+            continue
+        lookups = [x for x in body_walk(fi.node) if isinstance(x, ast.Assign) and 'accessiblename2attr' in src(x.value)]
+        if lookups:
+            n += len(lookups)
+            ctx.analysed(fi)
+            c04._no_fallback_to_the_wire_name(ctx, fi, lookups)
+    if n < 2:
+        raise AnchorMissing('translations through accessiblename2attr not found in the dispatcher')
 
 
 def _truth(test):
